@@ -360,7 +360,7 @@ MANIFEST_TEXT["C12"] = dict(
 )
 MANIFEST_TEXT["C18"] = dict(
     technique="Kani/CBMC bounded model checking of the timer code with std::time::Instant::now stubbed by arbitrary (not even monotone) instants",
-    level="Solver verdict over every clock reading and every way a timer can end (observe_duration, stop_and_record, stop_and_discard, drop): exactly one non-negative observation or none. Bounded number of timers.",
+    level="Solver verdict over every clock reading (arbitrary, not even monotone) and every way a timer can end (observe_duration, stop_and_record, stop_and_discard, drop), for a shared timer, local timers (also with a buffered observation) and observe_closure_duration: exactly one non-negative observation or none. One timer per scenario.",
     note="Trusted: Instant::now stub (transmuted (secs, nanos), size asserted); histogram core constructed directly; Kani/CBMC.",
 )
 MANIFEST_TEXT["C15"] = dict(
@@ -370,12 +370,12 @@ MANIFEST_TEXT["C15"] = dict(
 )
 MANIFEST_TEXT["C06"] = dict(
     technique="Kani/CBMC bounded model checking of RegistryCore::register / unregister as one step from an arbitrary registry state (inductive), ids and dimension hashes symbolic 64-bit values",
-    level="Solver verdict: from an arbitrary state of fixed shape one register (1 or 2 symbolic descriptors) or unregister succeeds exactly when the statement says, reports AlreadyReg, and leaves the complete state unchanged on failure. Histories of any length pass only through such states; shape and collector sizes bounded.",
+    level="Solver verdict: from an arbitrary registry state of fixed shape (ids and dimension hashes arbitrary 64-bit values) one register call with 1 or 2 symbolic descriptors succeeds exactly when the statement says, reports AlreadyReg for an equal descriptor, and leaves the complete state unchanged when refused. Histories of any length pass only through such states; shape and collector sizes bounded. The unregister step harnesses exist but are experimental (24 GB watchdog): unregister is NOT decided.",
     note="Trusted: E6 verif_map, pre-state built through the maps' API, collector-id collisions assumed away (64-bit hash collisions), std::fmt::format stubbed.",
 )
 MANIFEST_TEXT["C02"] = dict(
     technique="Lal-Reps K-round sequentialisation of the real observe/proto code (Kani/CBMC) plus a z3 RC11 release/acquire litmus built from the atomic events extracted from the crate's MIR (E5)",
-    level="Kani: every K-round round-robin schedule of one observer and one collector (quick; more threads in thorough) yields a snapshot that is one consistent cut respecting real time. z3: no RC11-consistent execution lets the collector count an observation/flush whose bucket or sum update it then misses; twins with the publication weakened are sat. Bounded threads, rounds, buckets; litmus bounded to 1 observer/flush x 1 collector.",
+    level="Kani: every K=2 round-robin schedule of one observer and one collector yields a snapshot that is one consistent cut respecting real time (S1). z3: no RC11-consistent execution lets the collector count an observation/flush whose bucket or sum update it then misses; twins with either side weakened to Relaxed are sat. Scenarios with two collectors / two observers are experimental (no usable solver verdict, DESIGN A.9): the collector/collector clause is NOT decided. Litmus bounded to 1 observer/flush x 1 collector.",
     note="Trusted: crate::verif_sync (SC), the MIR reader's classification of atomic locations (fails closed), the RC11 fragment encoded (po, rf, mo, release sequences, sw, hb, coherence, RMW atomicity; no fences, no SC axioms).",
 )
 
